@@ -314,6 +314,8 @@ def array_gray_evaluated(rep: Report, fi: FuncInfo, fname: str, scalar: str) -> 
 
 
 _FUNCS: Dict[str, ast.AST] = {}
+#: the points the evaluated constructor produced: (id of the function node, order, labelling) -> (points, real levels?)
+_PTS: Dict[tuple, tuple] = {}
 
 
 def evaluated_table(fi: FuncInfo, M: int, gray: bool, flag: str):
@@ -336,6 +338,7 @@ def evaluated_table(fi: FuncInfo, M: int, gray: bool, flag: str):
     import cmath as _cm
 
     pts = env.get("levels") if isinstance(env.get("levels"), list) else env.get("constellation")
+    _PTS[(id(fi.node), M, gray)] = (pts, isinstance(env.get("levels"), list))
     positions = None
     if isinstance(pts, list) and len(pts) == M and all(isinstance(z, (int, float, complex)) for z in pts):
         if isinstance(env.get("levels"), list):
@@ -489,6 +492,46 @@ def rule_generated(repo: Repo, rep: Report) -> int:
                 rep.violation("GENERATED-TABLE", fi, f"{cname}(gray_coding={gray}): labels along the physical order of the points", f"[{construct.split(': ', 1)[-1]}, positions re-indexed by {perm}] " + ((f"for order {M} physically adjacent points do not differ in one bit ({why})" + (": labels and positions are both permuted, the permutations cancel" if perm == "gray" else "")) if (gray and why != "not a bijection") else f"order {M}: labels are {why}"), node=node)
             else:
                 rep.ok("GENERATED-TABLE", fi, f"{cname}(gray_coding={gray}): labels along the physical order of the points", f"[{construct.split(': ', 1)[-1]}, positions indexed by {perm}] bijective for orders {orders}" + ("; Gray along physical neighbours" if gray else ""), node=node)
+    # geometry of the evaluated tables: 2^b distinct points, equally spaced (on the unit circle / on the line), so that
+    # "nearest neighbour" means "adjacent in the physical order" as the label rule above assumes
+    import cmath as _cm
+
+    for file, cname, flag, orders, cyclic in specs:
+        fi = repo.method(repo.cls(file, cname), "_create_constellation")
+        for gray in (True, False):
+            bad, seen = None, 0
+            for M in orders:
+                _PTS.pop((id(fi.node), M, gray), None)
+                tb = evaluated_table(fi, M, gray, flag)
+                got = _PTS.get((id(fi.node), M, gray))
+                if isinstance(tb, str) or got is None or not (isinstance(got[0], list) and len(got[0]) == M and all(isinstance(z, (int, float, complex)) and not isinstance(z, bool) for z in got[0])):
+                    if not isinstance(tb, str) and got is not None and isinstance(got[0], list) and len(got[0]) != M:
+                        bad = bad or f"order {M}: the table holds {len(got[0])} points"
+                    continue
+                seen += 1
+                pts_, real_ = got
+                if real_:
+                    lv = sorted(complex(z).real for z in pts_)
+                    gaps = [b_ - a_ for a_, b_ in zip(lv, lv[1:])]
+                    if M > 1 and (min(gaps) <= 1e-9 or max(gaps) - min(gaps) > 1e-6 * max(gaps)):
+                        bad = bad or f"order {M}: levels {[round(v, 4) for v in lv[:6]]}... are not {M} distinct equidistant levels"
+                else:
+                    if any(abs(abs(complex(z)) - 1) > 1e-6 for z in pts_):
+                        bad = bad or f"order {M}: a point has modulus {abs(complex(next(z for z in pts_ if abs(abs(complex(z)) - 1) > 1e-6))):.4g} (PSK-type points have unit energy by definition)"
+                        continue
+                    ang = sorted(_cm.phase(complex(z)) % (2 * _cm.pi) for z in pts_)
+                    gaps = [b_ - a_ for a_, b_ in zip(ang, ang[1:])] + [ang[0] + 2 * _cm.pi - ang[-1]]
+                    if any(abs(g_ - 2 * _cm.pi / M) > 1e-6 for g_ in gaps):
+                        distinct = len({round(a_, 6) for a_ in ang} | ({0.0} if any(abs(a_ - 2 * _cm.pi) < 1e-6 for a_ in ang) else set()))
+                        bad = bad or f"order {M}: the points are not {M} distinct points 2 pi / {M} apart on the unit circle ({distinct} distinct angles, gaps {[round(g_, 3) for g_ in gaps[:4]]}...)"
+            n += 1
+            what = f"{cname}(gray_coding={gray}): geometry of the evaluated point table"
+            if bad:
+                rep.violation("GENERATED-TABLE", fi, what, bad + " - the constellation must consist of 2^b distinct points, and the nearest neighbours of a point must be its neighbours in the physical order", node=fi.node)
+            elif seen:
+                rep.ok("GENERATED-TABLE", fi, what, f"{'equidistant levels' if not cyclic else 'unit modulus, 2 pi / M apart'}: 2^b distinct points for {seen} of the orders {orders}", node=fi.node)
+            else:
+                rep.ok("GENERATED-TABLE", fi, what, "constructor not evaluable: geometry left to the label rules", node=fi.node, nontrivial=False)
     # QAM: per-axis Gray
     ci = repo.cls(f"{MD}/qam.py", "QAMModulator")
     fi = repo.method(ci, "_create_constellation")
